@@ -493,4 +493,86 @@ def portableName : List Char := {T.lean_str(names["Portable"])}.toList
     T.write("OptionTable", body)
 
 
-TABLES = {"QuoteTables": quote_tables, "OptionTable": option_table}
+def script_tables(T):
+    """Tables of the command reader (`Quote/Script.lean`):
+      declUtils / declDefault   yash-builtin/src/lib.rs BUILTINS entries that set `is_declaration_utility`;
+                                yash-env/src/builtin.rs `Builtin::new` (the default); yash-env/src/decl_util.rs
+                                `impl Glossary for Env` (lookup in `env.builtins`, `Some(false)` for a name that is
+                                no built-in); yash-semantics/src/runner.rs passes the environment as glossary
+      commentChar               yash-syntax/src/parser/lex/misc.rs `skip_comment` (`#` up to, not including, a newline)
+    """
+    lib = strip_comments(T.read("yash-builtin/src/lib.rs"))
+    # every `("name", <builtin expression>)` entry of the BUILTINS array; an entry ends where the next begins
+    heads = list(re.finditer(r'\(\s*"([^"\\]+)"\s*,', lib))
+    if len(heads) < 10:
+        T.fail("yash-builtin BUILTINS: entries `(\"name\", …)` not found")
+    table = []
+    found = 0
+    for i, h in enumerate(heads):
+        seg = lib[h.end(): heads[i + 1].start() if i + 1 < len(heads) else len(lib)]
+        if "Builtin::new" not in seg:
+            continue
+        sets = re.findall(r"\.is_declaration_utility\s*=\s*(Some\(\s*true\s*\)|Some\(\s*false\s*\)|None)\s*;", seg)
+        found += len(sets)
+        if len(sets) > 1:
+            T.fail(f"BUILTINS entry `{h.group(1)}` sets is_declaration_utility more than once")
+        if sets:
+            v = re.sub(r"\s+", "", sets[0])
+            table.append((h.group(1), {"Some(true)": "some true", "Some(false)": "some false", "None": "none"}[v]))
+    if found != len(re.findall(r"is_declaration_utility", lib)):
+        T.fail("yash-builtin lib.rs: an `is_declaration_utility` that is not a plain `builtin.is_declaration_utility = <const>;` "
+               "inside a BUILTINS entry")
+    if not table:
+        T.fail("yash-builtin BUILTINS: no declaration utility found")
+    b = strip_comments(T.read("yash-env/src/builtin.rs"))
+    m = re.search(r"fnnew\([^{]*\)->Self\{Self\{[^}]*?is_declaration_utility:(Some\(true\)|Some\(false\)|None),", squash(b))
+    if not m:
+        T.fail("Builtin::new: the default of is_declaration_utility is not a constant")
+    default = {"Some(true)": "some true", "Some(false)": "some false", "None": "none"}[re.sub(r"\s+", "", m.group(1))]
+    if default != "some false":
+        T.fail("Builtin::new: a default of is_declaration_utility other than Some(false) is not modelled "
+               "(the model would need the names of all built-ins)")
+    du = squash(strip_comments(T.read("yash-env/src/decl_util.rs")))
+    m = re.search(r"Glossaryfor(?:crate::)?Env<S>\{fnis_declaration_utility\(&self,name:&str\)->Option<bool>\{(.*?)\}\}", du)
+    if not m:
+        T.fail("decl_util.rs: `impl Glossary for Env` not found")
+    gl = m.group(1)
+    ok_shapes = [
+        "matchself.builtins.get(name){Some(builtin)=>builtin.is_declaration_utility,None=>Some(false),}",
+        "matchself.builtins.get(name){None=>Some(false),Some(builtin)=>builtin.is_declaration_utility,}",
+        "self.builtins.get(name).map_or(Some(false),|builtin|builtin.is_declaration_utility)",
+        "ifletSome(builtin)=self.builtins.get(name){builtin.is_declaration_utility}else{Some(false)}",
+    ]
+    norm = lambda x: x.rstrip("},")
+    if norm(gl) not in [norm(x) for x in ok_shapes]:
+        T.fail(f"decl_util.rs: `Env::is_declaration_utility` is no longer a lookup in `builtins` with `Some(false)` otherwise: `{gl}`")
+    runner = squash(strip_comments(T.read("yash-semantics/src/runner.rs")))
+    if ".declaration_utilities(env)" not in runner:
+        T.fail("runner.rs: the read-eval loop no longer passes the environment as declaration-utility glossary")
+    core = squash(strip_comments(T.read("yash-syntax/src/parser/core.rs")))
+    m = re.search(r"fnword_names_declaration_utility\(&self,word:&Word\)->Option<bool>\{(.*?)\}\}", core)
+    wshapes = [
+        "ifletSome(name)=word.to_string_if_literal(){self.decl_utils.is_declaration_utility(&name)}else{Some(false)",
+        "matchword.to_string_if_literal(){Some(name)=>self.decl_utils.is_declaration_utility(&name),None=>Some(false),",
+    ]
+    if not m or norm(m.group(1)) not in [norm(x) for x in wshapes]:
+        T.fail("parser/core.rs: word_names_declaration_utility is no longer `literal name -> glossary, else Some(false)`")
+    misc = squash(strip_comments(T.read("yash-syntax/src/parser/lex/misc.rs")))
+    m = re.search(r"pubasyncfnskip_comment\(&mutself\)->Result<\(\)>\{ifself\.skip_if\(\|c\|c=='(.)'\)\.await\?\{"
+                  r"letmutlexer=self\.disable_line_continuation\(\);whilelexer\.skip_if\(\|c\|c!='\\n'\)\.await\?\{\}", misc)
+    if not m:
+        T.fail("lex/misc.rs: skip_comment is no longer `#` … up to a newline without line continuation")
+    rows = ", ".join(f"({T.lean_str(n)}.toList, {v})" for n, v in table)
+    body = f"""/-- yash-builtin `BUILTINS`: the built-ins whose `is_declaration_utility` differs from the default of
+    `Builtin::new` (source order); `none` = decided by the next word (`command`) -/
+def declUtils : List (List Char × Option Bool) := [{rows}]
+/-- `Builtin::new`: `is_declaration_utility` of every other built-in; a name that is no built-in gives
+    `Some(false)` (`impl Glossary for Env`) -/
+def declDefault : Option Bool := {default}
+/-- yash-syntax `skip_comment`: the character that starts a comment at the start of a token -/
+def commentChar : Char := {T.lean_char(m.group(1))}
+"""
+    T.write("ScriptTables", body)
+
+
+TABLES = {"QuoteTables": quote_tables, "OptionTable": option_table, "ScriptTables": script_tables}
